@@ -1084,9 +1084,11 @@ void Router::rerouteAndCallbackConnectors(void)
             improveHyperedgeRoutesMovingJunctions);
     bool withMajorImprovements = routingOption(
             improveHyperedgeRoutesMovingAddingAndDeletingJunctions);
+    // The lists of objects added and deleted by the improver describe this
+    // transaction, so forget those of the previous one in any case.
+    m_hyperedge_improver.clear();
     if (withMinorImprovements || withMajorImprovements)
     {
-        m_hyperedge_improver.clear();
         m_hyperedge_improver.execute(withMajorImprovements);
     }
 
